@@ -21,6 +21,7 @@ type upCfg struct {
 	Overrides map[string]string `json:"header_overrides,omitempty"`
 	Hosts     []string          `json:"hosts"`
 	Signing   bool              `json:"request_signing"`
+	Preserve  bool              `json:"preserve_host,omitempty"`
 	spec      sut.UpstreamSpec
 }
 
@@ -116,6 +117,13 @@ func genYAMLStack(r *rand.Rand, si int) *stackCfg {
 	for _, u := range s.ups {
 		u.spec.HeaderOverrides = u.Overrides
 	}
+	// preserve_host on some upstreams (drawn last: the draws above stay what they were);
+	// the reference upstream keeps the default
+	for _, u := range []*upCfg{flush, ovr, ovrflush, slow} {
+		if r.Intn(2) == 0 {
+			u.Preserve, u.spec.PreserveHost = true, true
+		}
+	}
 	return s
 }
 
@@ -138,7 +146,7 @@ func (s *stackCfg) startYAML() error {
 
 func genDirectStack(r *rand.Rand, di int) *stackCfg {
 	s := &stackCfg{Kind: "direct", Index: di, Secure: di&1 == 1, HTTPOnly: true, Signer: di&2 != 0, CookieName: "_sso_proxy", Preflight: di&2 == 0}
-	u := &upCfg{Name: "direct", Chain: "none", Signing: true}
+	u := &upCfg{Name: "direct", Chain: "none", Signing: true, Preserve: (di&1)^(di>>1&1) == 1}
 	if di&4 != 0 || di%3 == 2 {
 		oc := overrideChoices[r.Intn(len(overrideChoices))]
 		u.Overrides = map[string]string{oc.h: oc.v, "X-Custom-Policy": "configured"}
@@ -151,7 +159,7 @@ func genDirectStack(r *rand.Rand, di int) *stackCfg {
 func (s *stackCfg) startDirect() error {
 	u := s.ups[0]
 	ps, err := sut.NewDirectProxy(sut.DirectOpts{Host: "direct.sso.test", SkipAuthPreflight: s.Preflight, SkipAuthRegex: []string{`^/public/`},
-		AllowedEmailDomains: []string{allowedDomain}, HeaderOverrides: u.Overrides, CookieSecure: s.Secure, Signer: s.Signer})
+		AllowedEmailDomains: []string{allowedDomain}, HeaderOverrides: u.Overrides, CookieSecure: s.Secure, Signer: s.Signer, PreserveHost: u.Preserve})
 	if err != nil {
 		return err
 	}
@@ -430,11 +438,25 @@ type obs struct {
 	Headers  map[string]string `json:"observed_headers,omitempty"`
 	Cookies  []string          `json:"observed_set_cookie,omitempty"`
 	Err      string            `json:"client_error,omitempty"`
+
+	collect bool // shape stream: header failures are collected (pending) and reported by reportShaped
+	pending []failure
+	redo    func(a adv) *wresult // the same request once more with another upstream behaviour
 }
 
+// repView is the report as one stream sees it: the counters of the shape stream live under their
+// own prefix, so that the floors of the main stream keep measuring the main stream.
+type repView struct {
+	*vh.Report
+	prefix string
+}
+
+func (v repView) Count(name string, n int) { v.Report.Count(v.prefix+name, n) }
+
 type runner struct {
-	rep    *vh.Report
+	rep    repView
 	stream string
+	shape  bool
 }
 
 // request performs one request against the stack and judges the response.
@@ -456,6 +478,21 @@ func (rn *runner) request(idx int, st *stackCfg, up *upCfg, scen, step string, r
 	res := do(st.ps.Addr, wire)
 	o := &obs{Stack: st, Upstream: up, Scenario: scen, Step: step, Method: rq.Method, Host: rq.Host, Target: rq.Target,
 		XFP: xfp.Name, XFPClass: xfp.Class, Adv: a, Fwd: rq.Fwd}
+	if rn.shape && a != nil && a.Shape != nil {
+		o.collect = true
+		o.redo = func(a2 adv) *wresult {
+			again := wire
+			again.ID = ""
+			again.Headers = nil
+			for _, h := range wire.Headers {
+				if h[0] == advHeader {
+					h[1] = a2.encode()
+				}
+				again.Headers = append(again.Headers, h)
+			}
+			return do(st.ps.Addr, again)
+		}
+	}
 	if rq.Fwd.Via != "" {
 		rn.rep.Count("requests_with_hostile_"+rq.Fwd.Via, 1)
 	}
@@ -579,6 +616,9 @@ func (rn *runner) judge(idx int, st *stackCfg, up *upCfg, o *obs, rq wreq, res *
 	advDesc := "-"
 	if o.Adv != nil && o.Hit {
 		advDesc = fmt.Sprintf("%s/%d/%d/pre%d/%s", o.Adv.Hdr, o.Adv.Mask, o.Adv.Status, o.Adv.Pre, o.Adv.Net)
+		if o.Adv.Shape != nil {
+			advDesc += "/" + o.Adv.Shape.desc()
+		}
 		rep.Count("upstream_hdr_mode_"+o.Adv.Hdr+"_chain_"+up.Chain, 1)
 		if o.Adv.Huge {
 			rep.Count("upstream_huge_header_block", 1)
@@ -651,6 +691,12 @@ func (rn *runner) judge(idx int, st *stackCfg, up *upCfg, o *obs, rq wreq, res *
 		rn.cookieVerdict(idx, st, o, w, rq.Host)
 	}
 	check(f, o.Class)
+	if o.collect {
+		rn.shapeCount(o, up)
+		if len(o.pending) > 0 {
+			rn.reportShaped(idx, st, up, o, o.pending)
+		}
+	}
 	if len(res.Interim) > 0 {
 		rep.Count("final_responses_after_upstream_1xx_chain_"+up.Chain, 1)
 	}
@@ -745,20 +791,7 @@ func (rn *runner) judge(idx int, st *stackCfg, up *upCfg, o *obs, rq wreq, res *
 // itself (so that it can group).
 func (rn *runner) headerVerdict(idx int, o *obs, w *wresp, h string, want []string, chain, class string, deferMissing bool) string {
 	vals := w.values(h)
-	kind := ""
-	switch {
-	case len(vals) == 0:
-		kind = "missing"
-	case !containsStr(want, vals[0]):
-		kind = "wrong-value"
-		if o.Adv != nil && o.Hit && containsStr(o.Adv.sent(h), vals[0]) {
-			kind = "upstream-value-wins"
-		} else if _, ov := o.Upstream.override(h); ov && o.Stack.learnedOK[h] && vals[0] == o.Stack.learned[h] {
-			kind = "override-not-honoured"
-		}
-	case len(vals) > 1:
-		kind = "duplicated"
-	}
+	kind := headerKind(o, w, h, want)
 	if kind == "" {
 		rn.rep.Count("header_checks_ok", 1)
 		if o.Adv != nil && o.Hit && o.Adv.sent(h) != nil {
@@ -773,7 +806,31 @@ func (rn *runner) headerVerdict(idx int, o *obs, w *wresp, h string, want []stri
 	return kind
 }
 
+// headerKind is the clause itself: "first and only value is (one of) the expected one(s)"; "" when it holds.
+func headerKind(o *obs, w *wresp, h string, want []string) string {
+	vals := w.values(h)
+	kind := ""
+	switch {
+	case len(vals) == 0:
+		kind = "missing"
+	case !containsStr(want, vals[0]):
+		kind = "wrong-value"
+		if o.Adv != nil && o.Hit && containsStr(o.Adv.sent(h), vals[0]) {
+			kind = "upstream-value-wins"
+		} else if _, ov := o.Upstream.override(h); ov && o.Stack.learnedOK[h] && vals[0] == o.Stack.learned[h] {
+			kind = "override-not-honoured"
+		}
+	case len(vals) > 1:
+		kind = "duplicated"
+	}
+	return kind
+}
+
 func (rn *runner) report(idx int, o *obs, w *wresp, label, kind string, vals, want []string, chain, class string) {
+	if o.collect && !(kind == "missing" && len(o.Interim) > 0 && o.Hit) {
+		o.pending = append(o.pending, failure{Label: label, Kind: kind, Vals: vals, Want: want, Chain: chain, Class: class})
+		return
+	}
 	via := ""
 	switch {
 	case kind == "missing" && len(o.Interim) > 0 && o.Hit:
